@@ -77,6 +77,7 @@ DERIVE = {
     'wod': lambda x, Pm: x.wod,
     'clone': lambda x, Pm: x.clone(),
     'broadcast': lambda x, Pm: x.broadcast_to((2,) + x.shape),
+    'broadcast_nr': lambda x, Pm: x.broadcast_to((2,) + x.shape, recursive=False),
     'without_mask': lambda x, Pm: x.without_mask(),
     'to_scalar': lambda x, Pm: x.to_scalar(0) if x.numer else x.clone(),
     'transpose': lambda x, Pm: x.transpose_numer(0, 1) if len(x.numer) == 2 else x.clone(),
@@ -87,11 +88,17 @@ DERIVE = {
     'copy_ro': lambda x, Pm: x.copy(readonly=True),
     'pickle': lambda x, Pm: pickle.loads(pickle.dumps(x)),
     'pycopy': lambda x, Pm: _copy.copy(x),
+    # results of arithmetic are new writable objects, but they may share derivative objects or mask arrays with
+    # their operands: mutating the result must never reach a read-only operand
+    'add_num': lambda x, Pm: x + 1. if not x.is_bool() else x.clone(),
+    'radd_obj': lambda x, Pm: Pm.Scalar(3.) + x if not x.numer and not x.is_bool() else x + x.wod if not x.is_bool() else x.clone(),
+    'mul_one': lambda x, Pm: x * 1. if not x.is_bool() else x.clone(),
+    'neg': lambda x, Pm: -x if not x.is_bool() else x.clone(),
 }
 FRESH = ('copy', 'pycopy')      # must be writable and independent
 # results that share storage with the source (or must keep the status: pickle, copy_ro, deriv)
 KEEPS_RO = ('slice', 'int', 'ellipsis', 'reshape', 'flatten', 'swap', 'roll', 'move', 'wod', 'clone',
-            'broadcast', 'without_mask', 'to_scalar', 'transpose', 'remask', 'deriv', 'copy_ro', 'pickle')
+            'broadcast', 'broadcast_nr', 'without_mask', 'to_scalar', 'transpose', 'remask', 'deriv', 'copy_ro', 'pickle')
 
 MUTATE = {
     'set_int': lambda x, Pm: x.__setitem__(0 if x.shape else Ellipsis, x.masked_single().wod if False else (x[-1].wod if x.shape else x.wod * 2 if not x.is_bool() else x.wod)),
@@ -371,6 +378,18 @@ def run_history(ops, Pm):
             name, site = lib.exc_family(e)
             out = 'exc:' + name
         trace.append(out)
+        # a read-only object cannot be changed through its derivatives either: they are read-only too
+        # (seeded change C08-D: broadcast_to(recursive=False) froze the source but not its derivatives)
+        for i, rec in enumerate(W.objs):
+            o = rec['obj']
+            if o.readonly and not rec.get('wd_reported'):
+                for k, d in o._derivs_.items():
+                    if not d.readonly:
+                        rec['wd_reported'] = True
+                        fails.append(({'what': 'readonly-object-has-writable-derivative', 'op': op[0],
+                                       'how': op[2] if len(op) > 2 else op[1]},
+                                      {'object_index': i, 'key': k, 'step': step}))
+                        break
         for i, what, prior in W.check_all(actor):
             src = W.objs[i]
             fails.append(({'what': 'readonly-object-changed', 'prior_view': prior, 'op': op[0],
@@ -527,8 +546,19 @@ def run(ctx):
         ctx.prove(['theories/Props/C08.v'])
     # ---- oracle histories
     nh = 1500 if ctx.tier == 'quick' else 15000
-    for _ in range(nh):
-        ops = gen_history(ctx.rng, ctx.tier, ctx.rng.randrange(6, 26))
+    # exhaustive core: every maker, frozen, every way of deriving an object from it, then every mutator and every direct
+    # write applied to the derived object (quick: mutators sampled one in three)
+    core = []
+    for mk in MAKERS:
+        for via in DERIVE:
+            for mu in MUTATE:
+                if ctx.tier == 'quick' and ctx.rng.random() > 0.34:
+                    continue
+                core.append([('make', mk), ('freeze', 0), ('derive', 0, via), ('mutate', 1, mu)])
+            for dw in DIRECT:
+                core.append([('make', mk), ('freeze', 0), ('derive', 0, via), ('direct', 1, dw)])
+    for k in range(nh + len(core)):
+        ops = core[k] if k < len(core) else gen_history(ctx.rng, ctx.tier, ctx.rng.randrange(6, 26))
         trace, fails, W = run_history(ops, Pm)
         froze = [i for i, o in enumerate(ops) if o[0] == 'freeze']
         nontriv = bool(froze) and any(o[0] in ('mutate', 'direct') for o in ops[froze[0]:])
